@@ -57,3 +57,30 @@ func BenchmarkReal(b *testing.B) {
 		checkText(texts[i%len(texts)], cfgs, true)
 	}
 }
+
+// TestTables runs the hand-listed tables only and prints every finding.
+func TestTables(t *testing.T) {
+	if os.Getenv("C16_TABLES") == "" {
+		t.Skip("no C16_TABLES")
+	}
+	table := append([]string{}, extras...)
+	for _, l := range literals {
+		for _, c := range literalContexts {
+			table = append(table, strings.ReplaceAll(c, "%s", l))
+		}
+	}
+	acc := 0
+	for _, text := range table {
+		fs, st := checkText(text, allConfigs(), true)
+		if st.accepted {
+			acc++
+		}
+		for _, f := range fs {
+			if f.Cfg == "compact" && strings.HasPrefix(f.Class, "comment-lost:nested") {
+				continue
+			}
+			fmt.Printf("TEXT %q FINDING %s/%s\n     expected %s\n     got      %s\n", text, f.Cfg, f.Class, f.Expected, f.Got)
+		}
+	}
+	fmt.Printf("%d texts, %d accepted\n", len(table), acc)
+}
